@@ -193,18 +193,30 @@ def resolve_single_shape(ctx, rule='A5'):
     cfg = build_cfg(fn)
     # the condition under which a choice is taken automatically holds exactly for 0 and 1 options
     unit = unit_functions(ctx.prog, fn)
-    tests = [n for u in unit for n in build_cfg(u).nodes
-             if n.kind == 'test' and 'len(' in norm(n.ast) and 'opt' in norm(n.ast)]
     ok = False
     detail = 'no test on the number of options'
-    for t in tests:
-        try:
-            s = intcmp.value_set(t.ast, intcmp.is_len_of(lambda e: isinstance(e, ast.Name)),
-                                 domain=tuple(range(0, 7)))
-        except intcmp.NotSimple:
-            continue
-        detail = f'L{t.lineno}: `{short(t.ast)}` holds for option counts {sorted(s)} (of 0..6)'
-        ok = s == frozenset({0, 1})
+    for u in unit:
+        ucfg = build_cfg(u)
+        # what "taking the choice" is in this function: applying it, or (in an extracted search helper) returning it
+        takes = guards.call_nodes(ucfg, 'get_for_apply_selection_choice') or \
+            [n for n in ucfg.nodes if n.kind == 'stmt' and isinstance(n.ast, ast.Return) and
+             isinstance(n.ast.value, ast.Tuple)]
+        heads = [n for n in ucfg.nodes if n.kind == 'for']
+        for t in [n for n in ucfg.nodes if n.kind == 'test' and 'len(' in norm(n.ast) and 'opt' in norm(n.ast)]:
+            try:
+                s_ = intcmp.value_set(t.ast, intcmp.is_len_of(lambda e: isinstance(e, ast.Name)),
+                                      domain=tuple(range(0, 7)))
+            except intcmp.NotSimple:
+                continue
+            # the option counts under which the choice is taken in this iteration: the side of the test from which
+            # the take is reachable without going round the loop
+            side = {lab: any(ucfg.can_reach(m, k, blocked_nodes=heads) for m, l2 in t.succ if l2 == lab for k in takes)
+                    for lab in ('T', 'F')}
+            if side['T'] == side['F']:
+                continue
+            taken = s_ if side['T'] else frozenset(range(0, 7)) - s_
+            detail = f'L{t.lineno}: `{short(t.ast)}`: the choice is taken for option counts {sorted(taken)} (of 0..6)'
+            ok = taken == frozenset({0, 1})
     ctx.ob(rule, fkey(fn, rule, 'auto-take-iff-le-1-option'), ok, fn.where,
            'a selection choice is resolved automatically exactly when it has 0 or 1 options left', detail)
     # the while-True loop is left only through the `for ... else: break`
@@ -512,7 +524,7 @@ def check(ctx):
     # whenever set_influence_matrix runs, never kept from an earlier initialisation of the same object
     from ..rules import invalidate as _inv
     _inv.check_unconditional_recompute(ctx, f'{DSG}.set_influence_matrix', '_influence_matrix')
-    ctx.floor('A5acc', 8, 'accumulated derived-only removals')
+    ctx.floor('A5acc', 6, 'accumulated derived-only removals')
     ctx.floor('A5e', 2, 'guarded applications of a computed modification (incompatibility removal, floating nodes)')
     ctx.floor('A4', 15, 'derivation walks')
     ctx.floor('A5', 12, 'apply/resolve shape clauses')
